@@ -36,6 +36,10 @@ type G struct {
 	lockID  uintptr
 	waitAt  time.Time
 	waiting bool
+	// "slow goroutine" bookkeeping of the schedule generator (never read when a tape is replayed)
+	lagArm   bool // observed a network event since it last ran
+	lagAfter int  // own steps until the lag starts (0 = none pending)
+	lagUntil int  // not chosen before this scheduling step while others can run
 }
 
 const (
@@ -57,6 +61,7 @@ type Config struct {
 	PCTDepth      int
 	ExpectedSteps int
 	StallProb     float64 // probability per step of stalling a goroutine (fresh draws only)
+	LagProb       float64 // probability that a goroutine that observed a network event falls behind for a while
 	Stalls        bool    // stall slot present in scheduling draws
 	MaxSteps      int
 	SimLimit      time.Duration
@@ -71,6 +76,8 @@ type Result struct {
 	Switches     int
 	Preemptions  int
 	Stalls       int
+	Marks        int // network events observed by goroutines under the scheduler
+	Lags         int // times the schedule generator let such a goroutine fall behind
 	StallTotal   time.Duration
 	MultiReady   int // selects that had >=2 ready cases
 	LockWaits    int
@@ -94,7 +101,7 @@ var (
 	gs       = map[int64]*G{}
 	parked   []*G
 	lockW    = map[uintptr][]*G{}
-	lockRes  = map[uintptr]*G{} // lock handed to a starving waiter (sync.Mutex starvation mode)
+	lockQ    = map[uintptr][]*G{} // goroutines waiting for a lock, in arrival order
 	wake     chan struct{}
 	cur      *G
 	cfg      Config
@@ -154,6 +161,28 @@ func SiteName(id int32) string {
 }
 
 func inBubble() bool { return time.Now().Year() < 2010 }
+
+var (
+	nowMu   sync.Mutex
+	lastNow time.Time
+)
+
+// Now replaces time.Now in the instrumented tars and transport packages: like a real
+// clock it never returns the same instant twice (the bubble's clock stands still
+// between events, which would make "did X happen before I started" comparisons tie).
+func Now() time.Time {
+	t := time.Now()
+	if !active.Load() || !inBubble() {
+		return t
+	}
+	nowMu.Lock()
+	if !t.After(lastNow) {
+		t = lastNow.Add(time.Nanosecond)
+	}
+	lastNow = t
+	nowMu.Unlock()
+	return t
+}
 
 // InSim reports whether the caller runs under the scheduler.
 func InSim() bool { return active.Load() && !stopped.Load() }
@@ -339,10 +368,12 @@ func ptrOf(p interface{}) uintptr {
 }
 
 // Lock is what x.Lock()/x.RLock() is rewritten to. Waiters are woken by the
-// matching Unlock; a waiter that has waited for at least 1ms of simulated time
-// gets the lock handed to it (what sync.Mutex's starvation mode and
-// sync.RWMutex's writer preference guarantee), so the scheduler cannot starve
-// a waiter in a way the real primitives exclude.
+// matching Unlock. A waiter that has waited for at least 1ms of simulated time is
+// starving: nobody who arrived after it may take the lock before it does (what
+// sync.Mutex's starvation mode and sync.RWMutex's writer preference guarantee: the
+// lock is handed to the head of the queue and newcomers queue at the tail), so the
+// scheduler cannot let goroutines barge past a waiter in a way the real primitives
+// exclude.
 func Lock(idp interface{}, try func() bool, lock func(), site int32) {
 	if !active.Load() || stopped.Load() {
 		lock()
@@ -362,28 +393,52 @@ func Lock(idp interface{}, try func() bool, lock func(), site int32) {
 			return
 		}
 		mu.Lock()
-		r := lockRes[id]
+		ok := mayAcquire(id, g)
 		mu.Unlock()
-		if r == nil || r == g {
-			if try() {
-				mu.Lock()
-				if lockRes[id] == g {
-					delete(lockRes, id)
+		if ok && try() {
+			mu.Lock()
+			if g.waiting {
+				q := lockQ[id]
+				for i, w := range q {
+					if w == g {
+						q = append(q[:i:i], q[i+1:]...)
+						break
+					}
 				}
-				g.waiting = false
-				mu.Unlock()
-				return
+				if len(q) == 0 {
+					delete(lockQ, id)
+				} else {
+					lockQ[id] = q
+				}
 			}
+			g.waiting = false
+			mu.Unlock()
+			return
 		}
 		mu.Lock()
 		g.lockID = id
 		if !g.waiting {
 			g.waiting = true
 			g.waitAt = time.Now()
+			lockQ[id] = append(lockQ[id], g)
 		}
 		mu.Unlock()
 		park(g, site, stLockWait)
 	}
+}
+
+// mayAcquire: no other waiter of the lock that queued before g is starving. mu held.
+func mayAcquire(id uintptr, g *G) bool {
+	now := time.Now()
+	for _, w := range lockQ[id] {
+		if w == g {
+			return true // the queue is in arrival order: nobody before g is starving
+		}
+		if now.Sub(w.waitAt) >= time.Millisecond {
+			return false
+		}
+	}
+	return true
 }
 
 // Unlock is what x.Unlock()/x.RUnlock() is rewritten to.
@@ -395,18 +450,11 @@ func Unlock(idp interface{}, unlock func()) {
 	id := ptrOf(idp)
 	mu.Lock()
 	if ws := lockW[id]; len(ws) > 0 {
-		var oldest *G
 		for _, g := range ws {
 			g.state = stParked
-			if oldest == nil || g.waitAt.Before(oldest.waitAt) || (g.waitAt.Equal(oldest.waitAt) && g.id < oldest.id) {
-				oldest = g
-			}
 		}
 		parked = append(parked, ws...)
 		delete(lockW, id)
-		if lockRes[id] == nil && time.Since(oldest.waitAt) >= time.Millisecond {
-			lockRes[id] = oldest
-		}
 	}
 	mu.Unlock()
 }
@@ -816,11 +864,56 @@ func finalize() Result {
 	return r
 }
 
+// Mark tells the schedule generator that the calling goroutine has just observed a
+// network event (end of stream, error, accept, dial result, close). With probability
+// Config.LagProb the goroutine then falls behind a few of its own steps later: for a
+// drawn number of scheduling steps it is not chosen while anybody else can run. No
+// simulated time passes. This puts the preemptions that matter - right after somebody
+// learned that a connection is gone - where uniformly random schedules rarely put them.
+func Mark() {
+	if !active.Load() || stopped.Load() {
+		return
+	}
+	g := lookup()
+	if g.outside {
+		return
+	}
+	mu.Lock()
+	g.lagArm = true
+	res.Marks++
+	mu.Unlock()
+}
+
 // genSched produces a fresh scheduling value according to the strategy.
 func genSched(r *rand.Rand, n, curIdx int, order func(int) int) int {
 	if cfg.Stalls && cfg.StallProb > 0 && r.Float64() < cfg.StallProb {
 		return n
 	}
+	anyEligible := false
+	for _, g := range parked {
+		if g.lagArm {
+			g.lagArm = false
+			if g.lagAfter == 0 && g.lagUntil <= res.Steps && r.Float64() < cfg.LagProb {
+				g.lagAfter = 1 + r.IntN(12)
+			}
+		}
+		if g.lagUntil <= res.Steps {
+			anyEligible = true
+		}
+	}
+	eligible := func(g *G) bool { return !anyEligible || g.lagUntil <= res.Steps }
+	v := genPick(r, n, curIdx, order, eligible)
+	if g := parked[order(v)]; g.lagAfter > 0 {
+		g.lagAfter--
+		if g.lagAfter == 0 {
+			g.lagUntil = res.Steps + 1 + 20 + r.IntN(400)
+			res.Lags++
+		}
+	}
+	return v
+}
+
+func genPick(r *rand.Rand, n, curIdx int, order func(int) int, eligible func(*G) bool) int {
 	switch cfg.Strategy {
 	case "pct":
 		if !pctInit {
@@ -842,13 +935,13 @@ func genSched(r *rand.Rand, n, curIdx int, order func(int) int) int {
 		for i, at := range pctAt {
 			if at == res.Steps {
 				// lower the priority of the goroutine that would run now
-				best := bestPri()
+				best := bestPri(eligible)
 				if best != nil {
 					best.pri = float64(i) / float64(len(pctAt)+1)
 				}
 			}
 		}
-		best := bestPri()
+		best := bestPri(eligible)
 		for v := 0; v < n; v++ {
 			if parked[order(v)] == best {
 				return v
@@ -856,16 +949,25 @@ func genSched(r *rand.Rand, n, curIdx int, order func(int) int) int {
 		}
 		return 0
 	default:
-		if curIdx >= 0 && r.Float64() < cfg.Sticky {
+		if curIdx >= 0 && eligible(parked[curIdx]) && r.Float64() < cfg.Sticky {
 			return 0
 		}
-		return r.IntN(n)
+		var el []int
+		for v := 0; v < n; v++ {
+			if eligible(parked[order(v)]) {
+				el = append(el, v)
+			}
+		}
+		return el[r.IntN(len(el))]
 	}
 }
 
-func bestPri() *G {
+func bestPri(eligible func(*G) bool) *G {
 	var best *G
 	for _, g := range parked {
+		if !eligible(g) {
+			continue
+		}
 		if best == nil || g.pri > best.pri {
 			best = g
 		}
